@@ -2,7 +2,7 @@ import json
 from pathlib import Path
 from typing import Union
 
-from pydantic import BaseModel, Extra, ValidationError
+from pydantic import BaseModel, Extra, ValidationError, root_validator
 from pydantic_yaml import parse_yaml_file_as, parse_yaml_raw_as, to_yaml_str
 from ruamel.yaml import YAML
 
@@ -53,6 +53,22 @@ class BaseModelPlus(ParserMixin, BaseModel, metaclass=DynEncoderModelMetaclass):
         # (but we prefer NonEmptyStr anyway for inheritance)
         anystr_strip_whitespace = True
         min_anystr_length = 1
+
+    @root_validator(pre=True)
+    def _check_input_keys(cls, values):
+        """Refuse input keys that cannot be kept without breaking the model.
+
+        This can happen because fields can also be given by their name (not only
+        by their alias).
+        """
+        if not isinstance(values, dict):
+            return values
+        for fname, fld in cls.__fields__.items():
+            if fld.alias != fname and fname in values and fld.alias in values:
+                # (pydantic would validate one and silently keep the other one)
+                msg = f"field given twice, as '{fld.alias}' and as '{fname}'"
+                raise ValueError(msg)
+        return values
 
     def dict(self, *args, **kwargs):
         """Return a dict.
